@@ -37,6 +37,10 @@ func runStatic(prog *Prog, sc StaticCheck) *StaticResult {
 		return runSpawn(prog, sc)
 	case "once-init":
 		return runOnceInit(prog, sc)
+	case "critical-section":
+		return runCriticalSection(prog, sc)
+	case "atomic-write":
+		return runAtomicWrite(prog, sc)
 	case "call-flags":
 		return runCallFlags(prog, sc)
 	case "field-types":
